@@ -109,11 +109,39 @@ func (g *Gen) Draw() txgen.Tx {
 	return fns[i](g)
 }
 
-// DrawTxs draws 0..max transactions for the next block.
+// burstWeights gives, per profile weight map, how often a composite burst replaces a single draw
+// (in 1/20 steps); bursts reach states such as two verdicts in one block.
+func (g *Gen) drawBurst() []txgen.Tx {
+	k := g.Kinds
+	ev, gov := 1, 1
+	if k != nil {
+		ev, gov = k["allegation_vote"], k["proposal_vote"]
+	}
+	r := rapid.IntRange(0, 19).Draw(g.T, "burst")
+	switch {
+	case ev >= 5 && r < 2:
+		return g.AllegationPair()
+	case ev >= 5 && r < 5:
+		return g.VoteBurst()
+	case gov >= 5 && r < 3:
+		return g.ProposalVoteBurst()
+	case k == nil && r == 0:
+		return g.VoteBurst()
+	case k == nil && r == 1:
+		return g.AllegationPair()
+	}
+	return nil
+}
+
+// DrawTxs draws 0..max single transactions (or composite bursts) for the next block.
 func (g *Gen) DrawTxs(max int) []txgen.Tx {
 	n := rapid.IntRange(0, max).Draw(g.T, "ntx")
 	out := make([]txgen.Tx, 0, n)
 	for i := 0; i < n; i++ {
+		if b := g.drawBurst(); b != nil {
+			out = append(out, b...)
+			continue
+		}
 		out = append(out, g.Draw())
 	}
 	return out
